@@ -93,6 +93,14 @@ def gen_cases(tier, seed):
             for mode in ('sync', 'async'):
                 slow.append({'kind': 'stop', 'name': name, 'tree': tree, 'workload': 'abandoned-stream', 'cycles': 2, 'pending': 300, 'pad': 200_000,
                              'mode': mode, 'slow_tag': 'C', 'seed': rng.randrange(1 << 30)})
+    # a slow PROCESS member of an ensemble: when the context is left its results (more than a pipe holds) are still to come, and every few
+    # milliseconds all member output queues are empty at once
+    for name, tree in trees():
+        if name in ('ensTP', 'ensPP', 'seq-ensP', 'ens-ensP'):
+            ptag = [lf[1] for lf in SH.leaves(tree) if lf[0] == 'P'][0]
+            for mode, pad_ in (('sync', 200_000), ('async', 3_000)):
+                slow.append({'kind': 'stop', 'name': name, 'tree': tree, 'workload': 'abandoned-stream', 'cycles': 2, 'pending': 60 if pad_ > 10_000 else 150, 'pad': pad_,
+                             'mode': mode, 'slow_tag': ptag, 'slow_s': 0.02, 'seed': rng.randrange(1 << 30)})
     # ... the sibling is an ensemble of threads that receives nothing and stops at once; every request goes to the slow process member
     sw_ens_t = ['Seq', [['Sw', [['Ens', False, [['T', 'A', 1, 0, {}], ['T', 'B', 1, 0, {}]]], ['P', 'C', 1, 0, {}]]], ['P', 'D', 1, 0, {}]]]
     for mode in ('sync', 'async'):
